@@ -26,6 +26,7 @@ CONTRACTS = ['column_plain', 'column_guess_right', 'column_guess_neighbour', 'co
              'track_shape', 'track_spurious_column', 'track_missing_column', 'track_point_on_line', 'track_entry_exit',
              'track_order', 'track_abut', 'track_length_sum', 'track_dense_sampling']
 TWO_PI = 2.0 * math.pi
+ROUNDING_RATIO = 5.e-4    # see line_contracts: bound of the known crossing-merge rounding defect
 
 # ----------------------------------------------------------------------------------------------
 # independent oracle
@@ -206,6 +207,19 @@ def log_spacing(rnd, n):
     return [round(v, 4) for v in (half[::-1] + half)[:n]]        # fine in the middle, coarse outside
 
 
+def wellfield_spec(rnd, j):
+    """a regional grid of R-sized columns with a patch of r-sized columns (R/r = 25 .. 400) in it: the setting in which
+    long lines start near, or run far towards, very small columns"""
+    R, r = rnd.choice([500., 1000., 2000.]), rnd.choice([5., 10., 20.])
+    ax, bx, mx = rnd.randint(2, 8), rnd.randint(3, 9), rnd.randint(4, 10)
+    ay, by, my = rnd.randint(1, 4), rnd.randint(1, 4), rnd.randint(3, 7)
+    origin = rnd.choice([[0., 0., 0.], [round(rnd.uniform(-1e4, 1e4), 1), round(rnd.uniform(-1e4, 1e4), 1), 0.], [2765984.77, 6261546.23, 880.]])
+    return {'kind': 'rect', 'id': 1000 + j, 'dx': [R] * ax + [r] * mx + [R] * bx, 'dy': [R] * ay + [r] * my + [R] * by, 'dz': [50., 100., 200.],
+            'origin': origin, 'convention': rnd.choice([0, 2]), 'atmos_type': rnd.randint(0, 2), 'surfaces': False, 'rotate': None,
+            'wellfield': {'x0': origin[0] + R * ax, 'x1': origin[0] + R * ax + r * mx, 'y0': origin[1] + R * ay, 'y1': origin[1] + R * ay + r * my,
+                          'r': r, 'R': R}, 'seed': rnd.randrange(1 << 30)}
+
+
 def make_geo(spec):
     rnd = random.Random(spec['seed'])
     if spec['kind'] == 'rect':
@@ -239,7 +253,8 @@ def make_geo(spec):
 
 def geo_tag(spec):
     if spec['kind'] == 'rect':
-        return 'rect#%d[%dx%d%s]' % (spec['id'], len(spec['dx']), len(spec['dy']), ' rot%g' % spec['rotate'] if spec.get('rotate') is not None else '')
+        return '%s#%d[%dx%d%s]' % ('wellfield' if spec.get('wellfield') else 'rect', spec['id'], len(spec['dx']), len(spec['dy']),
+                                   ' rot%g' % spec['rotate'] if spec.get('rotate') is not None else '')
     return '%s%s%s%s' % (spec['file'][:-4], ' rot%g' % spec['rotate'] if spec.get('rotate') is not None else '',
                          ' refined%d/%d' % (spec['refine']['offset'], spec['refine']['every']) if spec.get('refine') else '',
                          ' surf' if spec.get('surfaces') else '')
@@ -423,7 +438,31 @@ def point_contracts(geo, O, R, rs, npoints, aids):
                                {'point': p3.tolist(), 'block': bn, 'column_surface': O.surface[ti]})
 
 
-def gen_line(O, rs):
+def gen_wellfield_line(O, rs, wf):
+    """long lines that start (or end) a few small-column widths outside the fine patch, or inside it, and cross it"""
+    r, R = wf['r'], wf['R']
+    kind = ['start-before-patch', 'start-in-patch', 'end-after-patch', 'start-far-through-patch'][rs.randint(4)]
+    yin = rs.uniform(wf['y0'] + 0.3 * r, wf['y1'] - 0.3 * r)
+    ang = rs.uniform(-0.03, 0.03) if rs.rand() < 0.7 else rs.uniform(-0.6, 0.6)
+    d = np.array([math.cos(ang), math.sin(ang)])
+    if rs.rand() < 0.3:                      # the same along y
+        xin = rs.uniform(wf['x0'] + 0.3 * r, wf['x1'] - 0.3 * r)
+        near, d = np.array([xin, wf['y0'] - rs.uniform(2., 8.) * r]), np.array([math.sin(ang), math.cos(ang)])
+        inside = np.array([xin, rs.uniform(wf['y0'], wf['y1'])])
+    else:
+        near = np.array([wf['x0'] - rs.uniform(2., 8.) * r, yin])
+        inside = np.array([rs.uniform(wf['x0'], wf['x1']), yin])
+    length = rs.uniform(5., 20.) * R * (1000. / R) ** 0.5 if R != 1000. else rs.uniform(8000., 20000.)
+    if kind == 'start-before-patch': A, B = near, near + length * d
+    elif kind == 'start-in-patch': A, B = inside, inside + length * d
+    elif kind == 'end-after-patch': A, B = near + (rs.uniform(2., 8.) * r + (wf['x1'] - wf['x0'])) * 2 * d - length * d, near + (rs.uniform(10., 30.) * r + (wf['x1'] - wf['x0'])) * d
+    else: A, B = inside - rs.uniform(0.3, 0.9) * length * d, inside + rs.uniform(0.1, 0.5) * length * d
+    if rs.rand() < 0.25: A, B = B, A
+    return A, B, 'wellfield-' + kind
+
+
+def gen_line(O, rs, wf=None):
+    if wf is not None and rs.rand() < 0.6: return gen_wellfield_line(O, rs, wf)
     span = O.hi - O.lo
 
     def endpoint(kind):
@@ -455,7 +494,7 @@ def line_contracts(geo, O, R, rs, nlines, ndense):
     cols = geo.columnlist
     colindex = dict((id(c), i) for i, c in enumerate(cols))
     for _ in range(nlines):
-        A, B, lk = gen_line(O, rs)
+        A, B, lk = gen_line(O, rs, R.spec.get('wellfield'))
         L = float(np.hypot(*(B - A)))
         if L < 100 * O.ptol: R.skip('degenerate line'); continue
         Al, Bl = A - O.ref, B - O.ref
@@ -494,16 +533,27 @@ def line_contracts(geo, O, R, rs, nlines, ndense):
             R.evals['track_spurious_column'] += 1
             if ci not in clip:
                 R.fail('track-spurious-column', item + ' column %r' % nm, 'column %r is listed but the line does not cross it' % nm, inp)
-        # every crossed column is listed, except clips shorter than 1e-3 x its longest side
+        # every crossed column is listed, except clips shorter than 1e-3 x its longest side.
+        # Sub-class '-rounding': the recorded defect of geometry.line_polygon_intersections (crossings are merged when their
+        # distances from the line start, divided by the distance of one of them, round to the same 3 decimals) can only lose
+        # a column whose clipped length is at most 5e-4 of the distance of its far end from the line start (measured maximum
+        # on the unchanged tree: 4.8e-4 of the distance of the near end).  Any other missing column keeps the plain category.
         listed = set(tcols)
+        rounding_missing = set()
         for ci in clip:
             if clen[ci] > 1.05 * thr[ci] + 2 * ptol:
                 R.evals['track_missing_column'] += 1
                 if ci not in listed:
-                    t0 = clip[ci][0][0] * L
-                    R.fail('track-missing-column', item + ' column %r' % O.colname[ci],
-                           'column %r is crossed over a length of %.6g (longest side %.6g, i.e. %.3g x the drop threshold), %.6g from the start of the line, but is not in the track' %
-                           (O.colname[ci], clen[ci], O.maxside[ci], clen[ci] / thr[ci], t0), dict(inp, column=O.colname[ci], clipped_length=clen[ci], distance_from_start=t0))
+                    t0, t1 = clip[ci][0][0] * L, clip[ci][-1][1] * L
+                    ratio = clen[ci] / max(t1, 1.0)
+                    sub = ''
+                    if ratio <= ROUNDING_RATIO and len(clip[ci]) == 1:
+                        sub = '-rounding'
+                        rounding_missing.add(ci)
+                    R.fail('track-missing-column' + sub, item + ' column %r' % O.colname[ci],
+                           'column %r is crossed over a length of %.6g (longest side %.6g, i.e. %.3g x the drop threshold), %.6g from the start of the line (length / distance = %.3g), but is not in the track' %
+                           (O.colname[ci], clen[ci], O.maxside[ci], clen[ci] / thr[ci], t0, ratio),
+                           dict(inp, column=O.colname[ci], clipped_length=clen[ci], distance_from_start=t0, length_over_distance=ratio))
         # points on the line, equal to the clipped entry / exit
         for j, (ci, nm) in enumerate(zip(tcols, names)):
             R.evals['track_point_on_line'] += 1
@@ -522,7 +572,8 @@ def line_contracts(geo, O, R, rs, nlines, ndense):
         if bad:
             R.fail('track-order' + rv, item, 'entries not ordered along the line at index %d: entry distances %r' % (bad[0], [round(e[0], 6) for e in ents][:12]), inp)
         # consecutive segments abut (a gap is legitimate only over dropped short clips / stretches outside the domain)
-        keep = [(t0 * L, t1 * L) for ci, iv in clip.items() if clen[ci] > 1.05 * thr[ci] + 2 * ptol for t0, t1 in iv]
+        keep = [(t0 * L, t1 * L) for ci, iv in clip.items() if clen[ci] > 1.05 * thr[ci] + 2 * ptol and ci not in rounding_missing for t0, t1 in iv]
+        keep_rounding = [(t0 * L, t1 * L) for ci in rounding_missing for t0, t1 in clip[ci]]
         for j in range(1, len(track)):
             R.evals['track_abut'] += 1
             g0, g1 = exts[j - 1][0], ents[j][0]
@@ -531,17 +582,23 @@ def line_contracts(geo, O, R, rs, nlines, ndense):
                        (names[j - 1], g0, names[j], g1, g0 - g1), inp)
             elif g1 - g0 > ptol:
                 covered = sum(max(0., min(g1, b1) - max(g0, b0)) for b0, b1 in keep)
+                covered_r = sum(max(0., min(g1, b1) - max(g0, b0)) for b0, b1 in keep_rounding)
                 if covered > 2 * ptol:
-                    R.fail('track-gap' + rv, item + ' columns %r/%r' % (names[j - 1], names[j]), 'gap of %.6g between the segments of %r and %r, of which %.6g lies in columns that may not be dropped' %
-                           (g1 - g0, names[j - 1], names[j], covered), inp)
+                    R.fail('track-gap' + rv, item + ' columns %r/%r' % (names[j - 1], names[j]), 'gap of %.6g between the segments of %r and %r, of which %.6g lies in columns that may not be dropped (and %.6g in columns lost to the crossing-merge rounding)' %
+                           (g1 - g0, names[j - 1], names[j], covered, covered_r), inp)
+                elif covered_r > 2 * ptol:
+                    R.fail('track-gap-rounding' + rv, item + ' columns %r/%r' % (names[j - 1], names[j]), 'gap of %.6g between the segments of %r and %r, all of it explained by columns lost to the crossing-merge rounding (%.6g)' %
+                           (g1 - g0, names[j - 1], names[j], covered_r), inp)
         # lengths add up to the length inside the domain, up to the dropped clips
         R.evals['track_length_sum'] += 1
         total = sum(x[0] - e[0] for e, x in zip(ents, exts))
         droppable = sum(clen[ci] for ci in clip if clen[ci] <= 1.05 * thr[ci] + 2 * ptol)
         slack = (len(clip) + 2) * ptol
         if not (inside_len - droppable - slack <= total <= inside_len + slack):
-            R.fail('track-length-sum' + rv, item, 'segment lengths add up to %.9g; length of the line inside the domain is %.9g (of which at most %.3g in droppable corner clips)' %
-                   (total, inside_len, droppable), dict(inp, observed=total, expected=inside_len))
+            lost = sum(clen[ci] for ci in rounding_missing)
+            sub = '-rounding' if rounding_missing and (inside_len - lost - droppable - slack <= total <= inside_len - lost + slack) else ''
+            R.fail('track-length-sum' + sub + rv, item, 'segment lengths add up to %.9g; length of the line inside the domain is %.9g (of which at most %.3g in droppable corner clips, %.6g in columns lost to the crossing-merge rounding)' %
+                   (total, inside_len, droppable, lost), dict(inp, observed=total, expected=inside_len, lost_to_rounding=lost))
         # dense sampling along the line: every column hit over more than the threshold must be listed (DESIGN oracle)
         if ndense and len(cand):
             R.evals['track_dense_sampling'] += 1
@@ -553,7 +610,7 @@ def line_contracts(geo, O, R, rs, nlines, ndense):
                 ci = int(ci)
                 est = cnt[jj] * L / ndense
                 if est > 1.05 * thr[ci] + 2 * ptol + 2 * L / ndense and ci not in listed:
-                    R.fail('track-dense-missing-column', item + ' column %r' % O.colname[ci],
+                    R.fail('track-dense-missing-column' + ('-rounding' if ci in rounding_missing else ''), item + ' column %r' % O.colname[ci],
                            '%d of %d sample points along the line fall in column %r (about %.6g of length) but it is not in the track' %
                            (cnt[jj], ndense, O.colname[ci], est), dict(inp, column=O.colname[ci]))
                 # consistency of the two oracles
@@ -641,6 +698,9 @@ def main():
               'convention': rnd.randint(0, 3), 'atmos_type': rnd.randint(0, 2), 'surfaces': rnd.random() < 0.7,
               'rotate': rnd.choice([None, None, 45., round(rnd.uniform(-180, 180), 2)]), 'seed': rnd.randrange(1 << 30)}
         specs.append((sp, 50 if quick else 120, 20 if quick else 50, 50 if quick else 60))
+    # regional grid + wellfield patch (columns 25 .. 400 times smaller), long lines starting near the small columns
+    for j in range(4 if quick else 24):
+        specs.append((wellfield_spec(rnd, j), 30 if quick else 90, 30 if quick else 120, 30 if quick else 45))
     tasks = []
     for sp, npts, nlines, chunk in specs:
         nchunks = max(1, (npts + chunk - 1) // chunk)
